@@ -76,7 +76,7 @@ class Ctx:
             os.unlink(raw)
         e = self.env(env)
         e["OUT"] = raw
-        r = L.tlc(module, cfg=cfg, env=e, workers=workers, simulate=simulate, timeout=timeout,
+        r = L.tlc(module, cfg=cfg, env=e, workers=workers, simulate=simulate, timeout=timeout, fulljit=True,
                   heap=heap, extra=tuple(extra) + ("-seed", str(self.seed)))
         if r.error or r.rc == 124 or not os.path.exists(raw):
             if r.violation:
@@ -111,7 +111,7 @@ class Ctx:
                     expect_violation=False, simulate=None, extra=()):
         """Run TLC on a model for its own invariants.  With expect_violation the
         model is a deliberately wrong variant that TLC must refute (vacuity guard)."""
-        r = L.tlc(module, cfg=cfg, env=self.env(env), workers=workers, timeout=timeout, heap=heap,
+        r = L.tlc(module, cfg=cfg, env=self.env(env), workers=workers, timeout=timeout, heap=heap, fulljit=True,
                   simulate=simulate, extra=tuple(extra))
         if r.rc == 124:
             raise Infra("model %s timed out" % module)
